@@ -800,7 +800,7 @@ def emits_comment_first(idx, fi: FuncInfo, helper: str, depth: int = 0) -> Tuple
     if calls:
         return False, f'{helper} is called with `{norm(calls[0].args[0]) if calls[0].args else ""}`, not with {model}.comment'
     # delegation: every return is a call of a local helper with the model as argument
-    if depth < 2:
+    if depth < 4:
         rets = [n for n in walk_no_nested(fi.node) if isinstance(n, ast.Return) and n.value is not None]
         targets = []
         for r in rets:
@@ -808,6 +808,8 @@ def emits_comment_first(idx, fi: FuncInfo, helper: str, depth: int = 0) -> Tuple
             cands = []
             if isinstance(v, ast.Call):
                 cands.append(v)
+            # f(model, ..).format(c=..): the call that receives the model, wherever it stands in the returned expression
+            cands += [c_ for c_ in ast.walk(v) if isinstance(c_, ast.Call) and c_ is not v]
             # result = f(...); return result.format(...) style
             for n in ast.walk(v):
                 if isinstance(n, ast.Name) and n.id != model:
